@@ -299,82 +299,91 @@ class Renderer:
 
     def quoted(self, arg):
         q = self.rng.pick("\"'")
-        out = []
+        out, toks = [], []
+        def raw(c): out.append(c); toks.extend(["r", tx(c)])
+        def esc(c): out.append("\\" + c); toks.extend(["e", tx(c)])
         for c in arg:
-            if c == "\\": out.append("\\\\")
-            elif c == q: out.append("\\" + q)
-            elif c == "\n": out.append("\\n")
-            elif c == "\r": out.append("\\r")
-            elif c == "\t": out.append("\\t" if self.rng.chance(0.5) else c)
-            elif c == "\f": out.append("\\f" if self.rng.chance(0.5) else c)
-            elif not c.isalnum() and ord(c) < 128 and self.rng.chance(0.1): out.append("\\" + c)    # optional escape of punctuation
-            else: out.append(c)
-        return q + "".join(out) + q
+            if c == "\\": esc("\\")
+            elif c == q: esc(q)
+            elif c == "\n": esc("n")
+            elif c == "\r": esc("r")
+            elif c == "\t": esc("t") if self.rng.chance(0.5) else raw(c)
+            elif c == "\f": esc("f") if self.rng.chance(0.5) else raw(c)
+            elif not c.isalnum() and ord(c) < 128 and self.rng.chance(0.1): esc(c)    # redundant backslash before punctuation
+            else: raw(c)
+        return q + "".join(out) + q, ["q", tx(q), str(len(arg))] + toks
 
     def arg(self, a, bare):
-        """(text, ends-in-unquoted-word)"""
+        """(text, ends-in-unquoted-word, tokens)"""
         can_unq = a != "" and not (set(a) & RESERVED) and not (bare and a[0] in "!&|")
-        if can_unq and self.rng.chance(0.6): return a, True
-        return self.quoted(a), False
+        if can_unq and self.rng.chance(0.6): return a, True, ["w", tx(a)]
+        s, toks = self.quoted(a)
+        return s, False, toks
 
     def atom(self, t):
         k = t[0]
-        if k == "U": return "~" + t[1], False
+        if k == "U": return "~" + t[1], False, ["u", tx(t[1])]
         if k == "I":
             z = "" if self.canon else self.rng.weighted([(8, ""), (1, "0"), (1, "000")])
-            return "~%s%s%s%d" % (t[1], self.ws(), z, t[2]), False
+            w = self.ws()
+            return "~%s%s%s%d" % (t[1], w, z, t[2]), False, ["i", tx(t[1]), tx(w), tx("%s%d" % (z, t[2]))]
         if t[1] == BARE and self.rng.chance(0.5):
-            return self.arg(t[2], True)
-        s, w = self.arg(t[2], False)
-        return "~" + t[1] + self.ws() + s, w
+            s, e, toks = self.arg(t[2], True)
+            return s, e, ["b"] + toks
+        s, e, toks = self.arg(t[2], False)
+        w = self.ws()
+        return "~" + t[1] + w + s, e, ["r", tx(t[1]), tx(w)] + toks
 
     def r0(self, t, g):
         if t[0] in "URI" and not (g < self.max_group and self.rng.chance(self.p_red)):
-            s, w = self.atom(t)
-            return self.ows() + s, w
+            s, e, toks = self.atom(t)
+            w = self.ows()
+            return w + s, e, ["a", tx(w)] + toks
         self.count += 1
         if g >= self.max_group or self.count > self.max_count: raise Skip()
-        s, _ = self.r4(t, g + 1)
-        return self.ows() + "(" + s + self.ows() + ")", False
+        s, _, toks = self.r4(t, g + 1)
+        w1, w2 = self.ows(), self.ows()
+        return w1 + "(" + s + w2 + ")", False, ["g", tx(w1)] + toks + [tx(w2)]
 
     def r1(self, t, g):
         if t[0] == "N" and not (g < self.max_group and self.rng.chance(self.p_red)):
-            s, w = self.r1(t[1], g)
-            return self.ows() + "!" + s, w
+            s, e, toks = self.r1(t[1], g)
+            w = self.ows()
+            return w + "!" + s, e, ["n", tx(w)] + toks
         return self.r0(t, g)
 
-    def chain(self, items, op, sub, g):
-        out, w = sub(items[0], g)
+    def chain(self, items, kind, op, sub, g):
+        out, e, toks = sub(items[0], g)
+        toks = ["c", kind, str(len(items) - 1)] + toks
         for x in items[1:]:
-            sep = self.ws() if w else self.ows()
-            s, w = sub(x, g)
+            sep = self.ws() if (e or kind == "juxt") else self.ows()
+            s, e, tk = sub(x, g)
             out += sep + op + s
-        return out, w
+            toks += [tx(sep)] + tk
+        return out, e, toks
 
     def r2(self, t, g):
         if t[0] == "A" and not (g < self.max_group and self.rng.chance(self.p_red)):
-            return self.chain(t[1], "&", self.r1, g)
+            return self.chain(t[1], "and", "&", self.r1, g)
         return self.r1(t, g)
 
     def r3(self, t, g):
         if t[0] == "O" and not (g < self.max_group and self.rng.chance(self.p_red)):
-            return self.chain(t[1], "|", self.r2, g)
+            return self.chain(t[1], "or", "|", self.r2, g)
         return self.r2(t, g)
 
     def r4(self, t, g):
         nested = t[0] == "A" and any(x[0] in "AO" for x in t[1])
         if t[0] == "A" and (self.rng.chance(0.9 if nested else 0.5) or (nested and g >= self.max_group)):
-            out, w = self.r3(t[1][0], g)
-            for x in t[1][1:]:
-                s, w = self.r3(x, g)
-                out += self.ws() + s
-            return out, w
+            return self.chain(t[1], "juxt", "", self.r3, g)
         return self.r3(t, g)
 
     def render(self, t):
+        """(string, concrete-syntax tokens for the Lean `C`, trailing white space)"""
         self.count = 0
-        s, _ = self.r4(t, 0)
-        return s + self.ows()
+        s, _, toks = self.r4(t, 0)
+        w = self.ows()
+        return s + w, toks, w
 
 
 MUT_ALPHABET = list("()!&|~\"'\\ \t\nabq3x24u0") + ["~q", "~u ", "~c ", "~hq ", "~marker ", "~all", " & ", " | ", "\\\"", "é"]
@@ -387,28 +396,38 @@ QUOTE_SOUP = ["\\", "\\\\", "x", "u", "0", "3", "2", "4", "a", "F", "g", "t", "n
 class Check(PropertyCheck):
     prop = "C42"
     design_ref = "§5 C42"
-    level_text = ("Lean theorems parse_render (for EVERY expression tree whose regexes compile and EVERY well-formed layout of it "
-                  "- spacing, redundant parentheses, `&` or juxtaposition, quoted/unquoted arguments with escapes - the modelled "
-                  "parser accepts the rendering and returns exactly that tree, hence the documented verdict on every flow), with "
-                  "not_tighter_than_and / and_tighter_than_or / juxtaposition_loosest as corollaries; proved by induction over the "
-                  "concrete syntax, no bounds. The model is a transcription of the pyparsing grammar of flowfilter._make "
-                  "(MatchFirst order of the operator tables, WordEnd(alphanums), CharsNotIn, QuotedString unescaping as pyparsing "
-                  "3.3.2 really does it, infix_notation([!,&,|]) inside OneOrMore, parenthesised groups holding a whole expression); "
-                  "the operator tables are regenerated from flowfilter.py on every run; the compiled model is compared with the real "
+    level_text = ("Lean theorems parse_render / parse_render_exact / parse_render_struct: for EVERY expression tree whose regexes "
+                  "compile and EVERY documented way of writing it (`Renders`: any white space before any token, redundant parentheses "
+                  "anywhere, `&` or juxtaposition, unquoted or quoted arguments with escapes, leading zeros) the modelled parser accepts "
+                  "the text and returns exactly that tree, hence the documented verdict on every flow whatever the leaves answer; "
+                  "parse_render_uncompilable (the only refusals are non-compiling regexes), eval_documented (not / all / any), and the "
+                  "precedence statements not_tighter_than_and, and_tighter_than_or, juxtaposition_loosest as corollaries - proved by "
+                  "mutual induction over the concrete syntax, no bounds. The model transcribes the pyparsing grammar of "
+                  "flowfilter._make (MatchFirst order of the operator tables, WordEnd(alphanums), CharsNotIn words, QuotedString "
+                  "unescaping as pyparsing 3.3.2 really does it, infix_notation([!,&,|]) inside OneOrMore, groups holding a whole "
+                  "expression, tabs kept); the operator tables are regenerated from flowfilter.py on every run and their side "
+                  "conditions (alphanumeric, disjoint) re-proved by evaluation. Tie: the compiled model is compared with the real "
                   "flowfilter.parse on every generated rendering and on mutated/raw strings (same tree or same refusal, same verdicts "
-                  "on a pool of 50 flows of every type), and the real code is checked directly against the tree that was rendered and "
-                  "an independent reference reading of every operator.")
-    level_note = ("trusted/assumed: the regex engine is a parameter (`compiles`, per-atom verdicts): the theorem is stated for trees "
-                  "whose arguments compile and the generator only renders compiling regexes; pyparsing itself is modelled, not "
-                  "verified - the tie is differential; int() of more than 4300 digits (ValueError) and lone surrogates are outside the "
-                  "generated domain; parenthesis nesting in generated cases is capped (2 quick / 3 thorough) because pyparsing's "
-                  "infix_notation takes time exponential in it (about 8x per level) - the theorems have no such cap; the per-operator "
-                  "reference reading (which part of a flow a regex is applied to) is hand-written from the documentation.")
-    technique = "Lean 4 proof (induction over concrete syntax) + regenerated operator tables + differential correspondence with flowfilter.parse"
-    rule = ("trees over all operator codes (unary / regex+argument / int / bare regex) with Not/And/Or up to the tier depth, each "
-            "rendered once with random layout; small-scope: every tree of depth <=2 over 5 atoms in canonical and one random layout "
-            "(thorough); ~15% mutated or raw strings for the model tie only. distinct = distinct rendered string; non-trivial = at "
-            "least one operator or a regex argument.")
+                  "on a pool of 45 flows of every type when fed the real leaves' verdicts); every generated layout is also sent as a "
+                  "term of the Lean concrete syntax and must print (Lean `render`) to the tested text, satisfy the Lean `WF` and "
+                  "denote (Lean `ast`) the tested tree, so the tested texts are instances of the theorem's hypothesis; the real code "
+                  "is checked directly against the tree that was written and an independent reference reading of every operator.")
+    level_note = ("trusted/assumed: the regex engine is a parameter (`compiles`, per-leaf verdicts `Sem`): the theorem is stated for "
+                  "trees whose arguments compile and the generator only renders compiling regexes; which part of a flow each "
+                  "operator's regex is applied to is outside the Lean model and is checked only by the hand-written reference "
+                  "reading (one recorded deviation: F-C42a, ~h/~hq/~hs and `$`); pyparsing itself is modelled, not verified - the tie "
+                  "is differential; the model's paren-nesting fuel (len+1) and loop fuel are sufficient by construction but only the "
+                  "rendering theorem, not a general fuel-independence lemma, is proved; int() of more than 4300 digits (ValueError) "
+                  "and lone surrogates are outside the generated domain; parenthesis nesting in generated cases is capped (2 quick / "
+                  "3 thorough, and most cases have none) because pyparsing's infix_notation takes time exponential in it (~10 ms "
+                  "without, ~100 ms with one group, up to 1 s with two levels) - the theorems have no such cap.")
+    technique = "Lean 4 proof (mutual induction over concrete syntax) + regenerated operator tables + differential correspondence with flowfilter.parse"
+    rule = ("trees over all operator codes (unary / regex+argument / int / naked regex) with Not/And/Or: 60% shaped along the "
+            "precedence levels (writable without parentheses, up to 4-5 levels deep), 25% arbitrary nesting up to the tier depth "
+            "(4 quick / 6 thorough), each rendered once with random layout under a per-case budget of parenthesised groups "
+            "(quick 80% none / 17% one / 3% two levels; thorough 50/30/15/5% up to three levels); thorough first enumerates every "
+            "tree of depth <=2 over 5 atoms (one per leaf kind) in canonical and random layout; 15% mutated renderings, raw token "
+            "soups and quoted-escape soups for the model tie only. distinct = distinct text; non-trivial = not a bare unary code.")
     budget = {"quick": 1500, "thorough": 200000}
     time_budget = {"quick": 24, "thorough": 540}
     fingerprints = ["mitmproxy.flowfilter:_make", "mitmproxy.flowfilter:parse", "mitmproxy.flowfilter:FAnd", "mitmproxy.flowfilter:FOr",
@@ -456,7 +475,9 @@ class Check(PropertyCheck):
         nest, count = groups if groups is not None else (MAX_GROUP[getattr(self, "tier", "quick")], 99)
         r = Renderer(rng, nest, canonical=canonical, p_redundant=0.0 if canonical else p_red, max_count=count)
         for _ in range(4):
-            try: return {"kind": "render", "tree": tree, "s_hex": tx(r.render(tree))}
+            try:
+                text, toks, trail = r.render(tree)
+                return {"kind": "render", "tree": tree, "s_hex": tx(text), "conc": " ".join(toks), "trail_hex": tx(trail)}
             except Skip: r.p_red = 0.0
         return None
 
@@ -651,20 +672,31 @@ class Check(PropertyCheck):
         # the per-atom verdicts (the `Sem` parameter of the model's eval) come from the real atom objects, left to right
         last = getattr(self, "_last", None)
         atoms = last[1] if last and last[0] == case["s_hex"] else self.impl(case)["atoms"]
-        return [" ".join(["px", case["s_hex"]] + atoms)]
+        lines = [" ".join(["px", case["s_hex"]] + atoms)]
+        if case.get("conc"):
+            # the layout the harness chose, as a term of the Lean concrete syntax `C`: the driver prints it with the Lean
+            # `render`, decides the Lean `WF` and computes the Lean `ast` - so the strings tested are `Renders` instances
+            lines.append("rn " + case["conc"])
+        return lines
 
     def model_obs(self, case, replies):
         r = replies[0]
-        if r == "reject": return ["reject", None]
+        if r == "reject": return ["reject", None] + ([replies[1]] if len(replies) > 1 else [])
         shape, _, v = r.partition(" ")
         for code, h in re.findall(r"R(\w+):([0-9a-f]+|-)", shape):
-            if not compiles(code, untx(h)): return ["reject", None]      # the `compiles` parameter, instantiated with CPython re
+            if not compiles(code, untx(h)): return ["reject", None] + ([replies[1]] if len(replies) > 1 else [])      # the `compiles` parameter, instantiated with CPython re
         for n in re.findall(r"I\w+:(\d+)", shape):
-            if len(n) > 4300: return ["reject", None]
-        return [shape, v if v != "-" else None]
+            if len(n) > 4300: return ["reject", None] + ([replies[1]] if len(replies) > 1 else [])
+        out = [shape, v if v != "-" else None]
+        return out + [replies[1]] if len(replies) > 1 else out
 
     def impl_view(self, case, obs):
-        return [obs["shape"], obs["v"]]
+        out = [obs["shape"], obs["v"]]
+        if case.get("conc"):
+            s = untx(case["s_hex"]); trail = untx(case["trail_hex"])
+            body = s[:len(s) - len(trail)] if trail else s
+            out.append("%s 1 %s" % (tx(body), shape_of_tree(case["tree"])))
+        return out
 
     def classify(self, case, obs):
         if case["kind"] == "render" and tree_ops(case["tree"]) == 0 and case["tree"][0] == "U": return None
